@@ -98,7 +98,7 @@ def _incarnate(hs, req):
 # ------------------------------------------------------------------ generation
 
 DAMAGES = ["truncate", "truncate", "truncate", "empty", "magic", "mtime+1", "mtime-1", "size+1", "size-1",
-           "delete", "header-only", "truncate-in-header"]
+           "mtime+1", "mtime-1", "size+1", "size-1", "delete", "header-only", "truncate-in-header"]
 
 
 def gen(rng, tier, index):
@@ -110,11 +110,13 @@ def gen(rng, tier, index):
         r = rng.random()
         if r < 0.30:
             version += 1
-            kind = rng.choice(["both", "both", "mtime-only", "size-only", "clock-back"])
+            # near-miss staleness matters most: same size with the mtime one second off (either way),
+            # or same mtime with the size one byte off
+            kind = rng.choice(["both", "mtime-only", "mtime-only", "mtime-back-only", "size-only", "clock-back"])
             if kind in ("both", "size-only", "clock-back"):
-                pad = (pad + rng.choice([1, 2, 3])) % 9
-            dt = {"both": rng.choice([1, 5, 3600]), "mtime-only": rng.choice([1, 2, 100]), "size-only": 0,
-                  "clock-back": -rng.choice([1, 7, 86400])}[kind]
+                pad = (pad + rng.choice([1, 1, 2, 3])) % 9
+            dt = {"both": rng.choice([1, 5, 3600]), "mtime-only": rng.choice([1, 1, 2, 100]), "size-only": 0,
+                  "mtime-back-only": -rng.choice([1, 1, 2]), "clock-back": -rng.choice([1, 7, 86400])}[kind]
             hist.append(["write", version, pad, dt])
         elif r < 0.55:
             hist.append(["damage", rng.choice(DAMAGES), rng.random()])
@@ -268,6 +270,8 @@ def _run(workload, scratch):
     log = []
     writer_hs = None          # hash seed of the incarnation that wrote the current cache file
     after_crash = False
+    src_version = None        # version of the source text currently on disk
+    payload_version = None    # version the payload of the current cache file was compiled from
 
     def fault(n):
         faults[n] = faults.get(n, 0) + 1
@@ -295,6 +299,7 @@ def _run(workload, scratch):
                 if dt < 0:
                     fault("clock_jump_back")
             log.append(["write", version, len(text), clock])
+            src_version = version
             continue
         if op[0] == "damage":
             res = _damage(cache_path, op[1], op[2])
@@ -335,6 +340,12 @@ def _run(workload, scratch):
             for p in path:
                 if p.startswith("cached-failed") and not p.endswith("effects=0"):
                     return R.verdict("violation", f"{ID}/invalid-cache-partly-executed:{why}", det, faults=faults, extra=extra)
+        if used_cache and valid_before and payload_version != src_version:
+            # the controller's own header damage made an OLD payload look current (header mtime/size
+            # happen to equal the edited source's): indistinguishable from the same-second-same-size
+            # edit the statement excludes, so this load is not judged
+            extra["coincidental_header_match"] = extra.get("coincidental_header_match", 0) + 1
+            continue
         if used_cache:
             extra["cached_path_loads"] += 1
             if writer_hs is not None and writer_hs != hsi:
@@ -361,6 +372,7 @@ def _run(workload, scratch):
             return R.verdict("violation", f"{ID}/no-valid-cache-left-behind:{why_after}", det, faults=faults, extra=extra)
         if not used_cache:
             writer_hs = hsi
+            payload_version = src_version
         after_crash = False
     # ---- exhaustive cut points of the final (valid) cache file at the decode layer
     bad = _cut_points(scratch, cache_path, src_path, calls, nfx, faults, extra)
